@@ -11,3 +11,38 @@ def run(ck, rec=None):
     overlay.run_family(ck, ["LayerOverlay-lim1.cfg", "LayerOverlay-lim2.cfg", "LayerOverlay-lim3.cfg"], limit_only=True)
     ck.cov["image_limit_rule"] = ("every 2-layer image over files of 1 and 2 bytes, directories and whiteouts, loaded with MaxFileBytes 1, 2 and 3 (file below / at / above the limit): "
                                   "no view exposes a file at or above the limit, no file under the extraction directory is larger than the limit, and the views equal the overlay of the layers without the oversize entries")
+    container_scan_limit(ck)
+
+
+def container_scan_limit(ck):
+    """the size limit of a container scan: the layer tracing re-extracts files from older views, where a file may be
+    larger than in the final one (LayerTrace.tla histories, MaxFileSize = the largest one-package list)"""
+    r = vf.require_ok(vf.tlc("LayerTrace", "LayerTrace-1f-quick.cfg", timeout=900), "LayerTrace-1f-quick.cfg")
+    ck.add_tlc("LayerTrace-1f-quick.cfg (size limit of ScanContainer)", r)
+    cases = [c for c in r.cases if c["history"] == "match"]
+    obs = vf.run_harness("vltrace", "ltrace", cases, args=["-a", "mode=pkglist", "-a", "layout=flat,maxfile"], timeout=1800)
+    if len(obs) != len(cases):
+        raise vf.NotAVerdict("ltrace returned %d of %d" % (len(obs), len(cases)))
+    bad = 0
+    seen_big = 0
+    for o in obs:
+        c = cases[o["i"]]
+        res = o.get("obs") if isinstance(o.get("obs"), dict) and "oversize" in o.get("obs", {}) else o
+        if res.get("panic"):
+            bad += 1
+            if bad <= 5:
+                ck.violation("C10 container scan with a size limit panicked: " + str(res["panic"])[:300], {"family": "container-limit", "case": c})
+            continue
+        if res.get("oversize", 0) > 0:
+            bad += 1
+            if bad <= 5:
+                ck.violation("C10 container scan with MaxFileSize %s: %d Extract call(s) were handed a larger file (an older view's version of a package list)"
+                             % (res.get("max_file"), res["oversize"]), {"family": "container-limit", "case": c, "observed": res})
+        if any(len(op.get("pk", [])) >= 2 for l in c["layers"] for op in (l["ops"].values() if isinstance(l["ops"], dict) else [])):
+            seen_big += 1
+    if seen_big == 0:
+        raise vf.NotAVerdict("no history holds a list above the limit: vacuous")
+    ck.count(len(obs))
+    ck.cov["distinct_nontrivial"] += seen_big
+    ck.cov["traces_validated_against_impl"] += len(obs)
+    ck.cov["container_scan_limit_histories"] = len(obs)
